@@ -61,8 +61,12 @@ class Step:
         out = []
         for q in self.ok_paths():
             for alt in guards.facts_dnf(self.ix, q):
-                out.append((q, frozenset((sym.subst(a, self.m), o) for (a, o) in alt)))
+                out.append((q, frozenset((self.ix.inline(sym.subst(a, self.m)), o) for (a, o) in alt)))
         return out
+
+    def c(self, v):
+        """canonical form of a handler-frame value: entry terms, single-path wrappers inlined"""
+        return self.ix.inline(sym.subst(v, self.m))
 
     def writes(self, q):
         return self.ix.writes_on_path(q, self.m)
